@@ -350,8 +350,15 @@ func Run(sc Scenario) (lines []any) {
 	case <-time.After(3 * time.Second):
 		end.CallerBlocked = true
 	}
-	// the handler loop leaves within its grace period (2 x DisposeTimeout)
+	// the handler loop leaves within its grace period (2 x DisposeTimeout); on a
+	// loaded host its goroutine may be scheduled late: wait for the exit hook up
+	// to a generous bound before the loop is called alive
 	time.Sleep(450 * time.Millisecond)
+	if sc.Handlers && end.Completed {
+		for t := 0; t < 1000 && atomic.LoadInt32(&loopExits) == 0; t++ {
+			time.Sleep(10 * time.Millisecond)
+		}
+	}
 	end.IsDisposed = m.IsDisposed()
 	for k, ch := range chans {
 		select {
